@@ -147,6 +147,10 @@ class Harness:
                     asyncio.run(private())
                 else:
                     h.do_adopt(cmd["target"], "payload:" + pid)
+            elif op == "adopt_burst":
+                # many adoptions in one synchronous step of this payload (no checkpoint between)
+                for target in cmd["targets"]:
+                    h.do_adopt(target, "payload:" + pid)
             elif op == "execute":
                 h.do_execute(cmd["target"], "payload:" + pid, cmd["how"], cmd.get("slow", 0.0))
             elif op == "new_service":
@@ -449,12 +453,14 @@ class Harness:
         scn = self.scn
         for op in scn["script"]:
             o = op["op"]
-            if self.accept_done.is_set() and o in ("adopt", "execute", "new_service", "step", "seg", "end", "block", "wait_start", "sigint", "polls"):
+            if self.accept_done.is_set() and o in ("adopt", "adopt_burst", "execute", "new_service", "step", "seg", "end", "block", "wait_start", "sigint", "polls"):
                 # the runtime has ended: the rest of the behaviour cannot be played any more
                 hooks.emit("skipped", op=o)
                 continue
             if o == "adopt":
                 self.run_ctx(op.get("ctx", "driver"), lambda: self.do_adopt(op["p"], op.get("ctx", "driver")), {"op": "adopt", "target": op["p"]})
+            elif o == "adopt_burst":
+                self.command(op["ctx"].split(":", 1)[1], {"op": "adopt_burst", "targets": op["ps"]}, timeout=8.0)
             elif o == "accept":
                 self.accept_go.set()
             elif o == "wait_running":
